@@ -168,6 +168,7 @@ def analyse(fn, facts, E, is_prim_call, keys_by_sig):
         for x in ir.walk(st):
             guard_of[id(x)] = g
     drains = []          # (order, source carrier, target local)
+    overwritten = set()
     changed = True
     while changed:
         changed = False
@@ -183,9 +184,14 @@ def analyse(fn, facts, E, is_prim_call, keys_by_sig):
                         srcs = [path(t_) for t_ in ts if isinstance(t_, dict)]
                     elif all(isinstance(t_, dict) and ((path(t_) and len(path(t_)) == 1 and is_carrier(path(t_)[0])) or const_value(t_) == 0)
                              for t_ in ts) and any(path(t_) for t_ in ts if isinstance(t_, dict)):
-                        # plain assignment of a sum of carriers: the target takes them over
+                        # plain assignment of a sum of carriers: the target takes them over - and loses what it held
                         tgt = lp[0]
                         srcs = [path(t_) for t_ in ts if isinstance(t_, dict)]
+                        prior = [x for x in accs.get(tgt, []) if x[0] < order[id(n)] and x[1] in ("+=", "initcall", "=")]
+                        if prior and id(n) not in overwritten:
+                            overwritten.add(id(n))
+                            sites.append(Site(fn, n, False, "plain assignment overwrites accumulator %s which already holds emitted byte counts "
+                                              "(`=` where `+=` is meant)" % tgt.split("#")[0][2:], tgt))
             elif n.get("k") == "Decl":
                 for v in n.get("vars", []):
                     if "n" in v and v.get("init") is not None:
